@@ -13,14 +13,14 @@ ENC_STUBS = [("poulpy_hal::source::Source::new", "crate::c19_enc::source_new_mod
 PROBE2 = ["hk_core/src/probe_full.rs: Module<Probe> at N=2 (size-1 FFT = identity, exact integer leaf kernels)", "poulpy-cpu-ref/src/hal_defaults/*.rs", "poulpy-cpu-ref/src/reference/fft64/{vec_znx_dft,svp,vec_znx_big}.rs"]
 
 
-def enc_instances():
+def enc_instances(tier="quick"):
     import c01
     out = []
     for b, k in ((12, 12), (17, 35), (12, 13)):
         size = -(-k // b)
         for rank in (1, 2):
             for variant, nsym in [(v, ns) for v in (0, 2) for ns in (1, 999)]:
-                if nsym == 999 and not (variant == 0 and rank == 1):
+                if nsym == 999 and (tier != "thorough" or not (variant == 0 and rank == 1)):
                     continue
                 sp, sec = c01.secret_code(2, rank, variant)
                 enc, _ = c01.glwe_tmp(2, size)
@@ -30,11 +30,15 @@ def enc_instances():
                                     params={"n": 2, "base2k": b, "k": k, "rank": rank, "secret": sec},
                                     symbolic=["one seed byte", "error values", "prior receiver content", "plaintext digits: 1 word (quick) / all + stream table entries (thorough)"], stubs=ENC_STUBS,
                                     functions=["poulpy-core/src/encryption/compressed/glwe_ct.rs::glwe_compressed_encrypt_sk", "poulpy-core/src/layouts/compressed/glwe.rs::decompress_glwe", "poulpy-core/src/encryption/glwe.rs::glwe_encrypt_sk / glwe_encrypt_sk_internal"] + PROBE2,
-                                    timeout=3600 if nsym == 999 else 600, mem_gb=24, core=(b, k, rank, variant) in ((17, 35, 2, 0), (12, 12, 1, 0)) and nsym == 1))
+                                    timeout=3600 if nsym == 999 else 1800, mem_gb=24, core=(b, k, rank, variant) in ((17, 35, 2, 0), (12, 12, 1, 0)) and nsym == 1))
+    # quick tier: shapes calibrated below 10 min under full load; the others only in the thorough tier
+    light = {(12, 36, 1, 2, 1, 1), (12, 36, 1, 2, 2, 1), (12, 36, 2, 1, 1, 1), (12, 36, 2, 1, 2, 1), (12, 60, 2, 2, 1, 1)}
     for b, k, dsize, dnum in ((12, 36, 1, 2), (12, 36, 2, 1), (12, 60, 2, 2), (12, 48, 3, 1), (8, 40, 1, 4)):
         size = -(-k // b)
         for ri, ro, nsym in [(a, c, ns) for (a, c) in ((1, 1), (2, 1), (1, 2), (2, 2)) for ns in (1, 999)]:
             if nsym == 999 and (ri, ro) != (2, 1):
+                continue
+            if tier != "thorough" and ((b, k, dsize, dnum, ri, ro) not in light or nsym == 999):
                 continue
             sp, sec = c01.secret_code(2, ro, 0)
             ar = (8 * 2 * size * 4 + 24 * 2 * 2 + 512 + 7) // 8
@@ -44,7 +48,7 @@ def enc_instances():
                                 symbolic=["plaintext coefficients in [-4,4]: 1 (quick) / all + one seed byte (thorough)"], stubs=ENC_STUBS,
                                 functions=["poulpy-core/src/encryption/compressed/gglwe.rs::gglwe_compressed_encrypt_sk", "poulpy-core/src/layouts/compressed/gglwe.rs::decompress_gglwe", "poulpy-core/src/encryption/gglwe.rs::gglwe_encrypt_sk",
                                            "poulpy-core/src/decryption/glwe.rs::glwe_decrypt_default"] + PROBE2,
-                                timeout=3600 if nsym == 999 else 1200, mem_gb=24, core=(b, k, dsize, dnum, ri, ro) in ((12, 60, 2, 2, 1, 1), (12, 36, 2, 1, 2, 1)) and nsym == 1))
+                                timeout=3600 if nsym == 999 else 2400, mem_gb=24, core=(b, k, dsize, dnum, ri, ro) in ((12, 60, 2, 2, 1, 1), (12, 36, 2, 1, 2, 1)) and nsym == 1))
     return out
 
 
@@ -63,7 +67,7 @@ def instances(tier, seed):
                                         symbolic=["compressed body", "stored seed (32 bytes)", "mask words", "prior receiver content"], stubs=STUBS, should_panic=refuse,
                                         functions=[f"{G}::GLWEDecompress::decompress_glwe"], timeout=1200, mem_gb=16,
                                         core=(b == 17 and ((size, rank, rs) in ((2, 2, 2), (2, 2, 1), (1, 1, 1))))))
-    out += enc_instances()
+    out += enc_instances(tier)
     # de-duplicate names (rs may coincide for size 1)
     seen, res = set(), []
     for i in out:
